@@ -7,6 +7,8 @@ import (
 	"strings"
 	"time"
 
+	"github.com/golang/protobuf/proto"
+
 	"github.com/DOSNetwork/core/share"
 	dkg "github.com/DOSNetwork/core/share/dkg/pedersen"
 	vss "github.com/DOSNetwork/core/share/vss/pedersen"
@@ -24,6 +26,7 @@ type Sim struct {
 	Sid    string
 	Secs   []kyber.Scalar
 	Pubs   []kyber.Point
+	Ids    [][]byte // group ids = transport identities of the members
 	M      []*SimMember
 	Prev   *Sim // a finished earlier session with the same keys (source of replayed messages)
 	rng    *h.Rng
@@ -31,6 +34,7 @@ type Sim struct {
 	Sealed []SealedInfo // what the adversary sealed (for the oracle)
 	// Effective records the events that actually delivered something (the message existed already)
 	Effective map[string]bool
+	advKeys   []kyber.Scalar
 	timeout   time.Duration
 }
 
@@ -58,9 +62,18 @@ type SimMember struct {
 	share    *dkg.DistKeyShare
 	Approved []int // dealers whose deal this member answered with an approval
 	dealLog  []dealSeen
+	keyLog   map[uint32]keySeen // first PublicKey message per claimed index that arrived before the key exchange ended
 }
 
-func NewSim(seed uint64, n int) *Sim {
+type keySeen struct {
+	sender int
+	key    []byte
+}
+
+func NewSim(seed uint64, n int) *Sim { return NewSimDup(seed, n, nil) }
+
+// NewSimDup: the members listed in dup all use the long-term key of the first of them.
+func NewSimDup(seed uint64, n int, dup []int) *Sim {
 	InitLog()
 	Quiet()
 	s := &Sim{N: n, T: n/2 + 1, rng: h.NewRng(seed), polys: map[string][]*big.Int{}, timeout: 20 * time.Second, Effective: map[string]bool{}}
@@ -69,6 +82,10 @@ func NewSim(seed uint64, n int) *Sim {
 		sc := Scalar(NonZero(s.rng))
 		s.Secs = append(s.Secs, sc)
 		s.Pubs = append(s.Pubs, Pub(sc))
+		s.Ids = append(s.Ids, []byte(fmt.Sprintf("member-%02d", k)))
+	}
+	for _, k := range dup {
+		s.Secs[k], s.Pubs[k] = s.Secs[dup[0]], s.Pubs[dup[0]]
 	}
 	s.reset()
 	return s
@@ -87,7 +104,7 @@ func (s *Sim) reset() {
 
 // WithPrev runs a complete honest session first (same keys, other polynomials) and keeps it for replays.
 func (s *Sim) WithPrev() {
-	p := &Sim{N: s.N, T: s.T, Sid: s.Sid, Secs: s.Secs, Pubs: s.Pubs, rng: s.rng, polys: map[string][]*big.Int{}, timeout: s.timeout, Effective: map[string]bool{}}
+	p := &Sim{N: s.N, T: s.T, Sid: s.Sid, Secs: s.Secs, Pubs: s.Pubs, Ids: s.Ids, rng: s.rng, polys: map[string][]*big.Int{}, timeout: s.timeout, Effective: map[string]bool{}}
 	p.reset()
 	for i := 0; i < p.N; i++ {
 		p.Start(i)
@@ -145,10 +162,20 @@ func (s *Sim) advance(m *SimMember) {
 			default:
 				return
 			}
-			// exchangePub: own key first, then the batch
-			pubs := []*dkg.PublicKey{m.pkMsg}
-			for _, b := range batch {
-				pubs = append(pubs, b.(*dkg.PublicKey))
+			// the real exchangePub: own key first, then the batch, each key checked against its announcer
+			ectx, ecancel := s.ctx()
+			selfc := make(chan interface{}, 1)
+			peerc := make(chan []interface{}, 1)
+			selfc <- m.pkMsg
+			peerc <- batch
+			pout, perrc := dkg.VerifPExchangePub(ectx, selfc, peerc, s.Ids, s.Sid)
+			pec := drain(perrc)
+			pubs, pok := <-pout
+			<-pec
+			ecancel()
+			if !pok || pubs == nil {
+				m.stage = "F:gen"
+				return
 			}
 			ctx, cancel := s.ctx()
 			secrc := make(chan kyber.Scalar, 1)
@@ -280,9 +307,7 @@ func (s *Sim) DeliverPk(j, i int) bool {
 	if s.M[j].pkMsg == nil {
 		return false
 	}
-	c := *s.M[j].pkMsg
-	s.M[i].pk.PeerMsg(s.Sid, &c)
-	s.advance(s.M[i])
+	s.InjectPk(i, s.M[j].pkMsg, j)
 	return true
 }
 
@@ -455,7 +480,8 @@ func (s *Sim) AdvDeal(claim, sealer, rcpt int, variant string) *dkg.Deal {
 		panic("sealing hook: " + err.Error())
 	}
 	cons := false
-	if deal.SecShare != nil && deal.SecShare.V != nil && claim == sealer {
+	sameKey := claim >= 0 && claim < s.N && string(PointBytes(s.Pubs[claim])) == string(PointBytes(s.Pubs[sealer]))
+	if deal.SecShare != nil && deal.SecShare.V != nil && sameKey {
 		want, _ := vss.VerifSessionID(Suite, s.Pubs[sealer], s.Pubs, deal.Commitments, int(deal.T))
 		cons = int(deal.T) >= 2 && int(deal.T) <= s.N && deal.SecShare.I == rcpt && string(want) == string(deal.SessionID) &&
 			string(PointBytes(Pub(deal.SecShare.V))) == string(PointBytes(PubEval(deal.Commitments, int64(rcpt)+1)))
@@ -589,4 +615,94 @@ func (s *Sim) FirstDealConsistent(k, j int) (consistent, known bool) {
 		}
 	}
 	return false, false
+}
+
+// InjectPk hands member i a PublicKey message coming from the transport identity of member `sender`,
+// as pdkg.Loop does: the authenticated sender is recorded in the message before it is buffered.
+func (s *Sim) InjectPk(i int, m *dkg.PublicKey, sender int) {
+	c := proto.Clone(m).(*dkg.PublicKey)
+	if mm := s.M[i]; mm.stage == "i" || mm.stage == "p" {
+		if mm.keyLog == nil {
+			mm.keyLog = map[uint32]keySeen{}
+		}
+		if _, dup := mm.keyLog[c.Index]; !dup {
+			var kb []byte
+			if c.Publickey != nil {
+				kb = append(kb, c.Publickey.Binary...)
+			}
+			mm.keyLog[c.Index] = keySeen{sender, kb}
+		}
+	}
+	var id []byte = []byte("outsider")
+	if sender >= 0 && sender < len(s.Ids) {
+		id = s.Ids[sender]
+	}
+	dkg.VerifStampSender(c, id)
+	s.M[i].pk.PeerMsg(s.Sid, c)
+	s.advance(s.M[i])
+}
+
+// AdvPk builds "K.<claim>.<sender>.<keyowner>": a PublicKey message claiming index <claim>, carrying the
+// key of member <keyowner> (or, "x<N>", a key of the adversary's own), sent by <sender>.
+func (s *Sim) AdvPk(claim int, keyowner string) *dkg.PublicKey {
+	var pt kyber.Point
+	if strings.HasPrefix(keyowner, "x") {
+		pt = Pub(s.AdvKey(h.Atoi(keyowner[1:])))
+	} else {
+		pt = s.Pubs[h.Atoi(keyowner)]
+	}
+	bin, _ := pt.MarshalBinary()
+	return &dkg.PublicKey{SessionId: s.Sid, Index: uint32(claim), Publickey: &vss.PublicKey{Binary: bin}}
+}
+
+// AdvKey is the adversary's own long-term secret number k (deterministic per Sim).
+func (s *Sim) AdvKey(k int) kyber.Scalar {
+	for len(s.advKeys) <= k {
+		s.advKeys = append(s.advKeys, Scalar(NonZero(s.rng)))
+	}
+	return s.advKeys[k]
+}
+
+// DealOf / RespsOf expose what member j has produced (copies).
+func (s *Sim) DealOf(j, i int) *dkg.Deal {
+	d, ok := s.M[j].deals[i]
+	if !ok {
+		return &dkg.Deal{SessionId: s.Sid, Index: uint32(j)}
+	}
+	return CloneDeal(d)
+}
+func (s *Sim) RespsOf(k int) []*dkg.Response {
+	var out []*dkg.Response
+	if s.M[k].resps != nil {
+		for _, r := range s.M[k].resps.Response {
+			out = append(out, CloneResp(r))
+		}
+	}
+	return out
+}
+
+// KeyOracle states the key-exchange part of the property for member k directly: a member that got past
+// the key exchange holds, for every index, a key announced by the group member with that index, and no
+// key (its own included) under two indices. "" = fine.
+func (s *Sim) KeyOracle(k int) string {
+	m := s.M[k]
+	switch m.stage {
+	case "i", "p", "F:gen":
+		return ""
+	}
+	seen := map[string]int{string(PointBytes(s.Pubs[k])): k}
+	for idx := uint32(0); idx < uint32(s.N); idx++ {
+		e, ok := m.keyLog[idx]
+		if !ok || int(idx) == k {
+			continue
+		}
+		if e.sender != int(idx) {
+			return fmt.Sprintf("accepted-foreign-key: member %d went on with a key for index %d that was announced by %d", k, idx, e.sender)
+		}
+		if o, dup := seen[string(e.key)]; dup {
+			return fmt.Sprintf("accepted-duplicate-key: member %d went on with one key under the indices %d and %d", k, o, idx)
+		}
+		seen[string(e.key)] = int(idx)
+	}
+	return ""
 }
